@@ -512,11 +512,23 @@ def maxdiff(a, b) -> float:
     return float(np.max(np.abs(a - b))) if a.size else 0.0
 
 
-def real_fermionic_tensors(spin_set):
+class ShapeError(Exception):
+    pass
+
+
+def real_fermionic_tensors(spin_set, n_modes=None):
+    """(constant, one-body, two-body) of the real get_fermionic_hamiltonian; ShapeError when the arrays are not the
+    (n_modes,)*2 / (n_modes,)*4 tensors the Fock-space oracle needs"""
+    import numpy as np
+
     import quri_parts.openfermion.mol as OM
 
     op = OM.get_fermionic_hamiltonian(spin_set)
-    return complex(op.constant), op.one_body_tensor, op.two_body_tensor
+    one, two = np.asarray(op.one_body_tensor), np.asarray(op.two_body_tensor)
+    m = one.shape[0] if one.ndim == 2 else -1
+    if one.ndim != 2 or one.shape != (m, m) or two.shape != (m, m, m, m) or (n_modes is not None and m != n_modes):
+        raise ShapeError(f"one-body {one.shape}, two-body {two.shape}, expected {n_modes} spin orbitals")
+    return complex(op.constant), one, two
 
 
 def qubit_terms(op):
@@ -539,8 +551,11 @@ def active_space_case(ctx: Ctx, n, const, h, chem, ne, sp, casargs, tag):
         sset = M.SpatialMOeIntSet(const, M.SpatialMO1eIntArray(h.astype(complex)), M.SpatialMO2eIntArray(g.astype(complex)))
         red = M.get_active_space_spin_integrals_from_mo_eint(asmo, sset)
         full = M.spatial_mo_eint_set_to_spin_mo_eint_set(sset)
-        c_r, one_r, two_r = real_fermionic_tensors(red)
-        c_f, one_f, two_f = real_fermionic_tensors(full)
+        c_r, one_r, two_r = real_fermionic_tensors(red, 2 * ao)
+        c_f, one_f, two_f = real_fermionic_tensors(full, 2 * n)
+    except ShapeError as e:
+        ctx.witness("integral-shape", "spin-orbital integral arrays do not have 2·(number of spatial orbitals) spin orbitals", inp, str(e))
+        return
     except Exception as e:  # noqa: BLE001
         ctx.witness("active-space-raises", f"active-space reduction raises {exc_name(e)} on a valid active space", inp, str(e)[:200])
         return
@@ -551,9 +566,6 @@ def active_space_case(ctx: Ctx, n, const, h, chem, ne, sp, casargs, tag):
     if maxdiff(H_full, H_full_real) > TOL * scale:
         ctx.witness("full-space-hamiltonian", "full-space spin-orbital Hamiltonian (spatial→spin expansion + 1/2 assembly) differs from the "
                     "Fock-space oracle built from the spatial integrals", inp, {"max_abs_diff": maxdiff(H_full, H_full_real)})
-        return
-    if one_r.shape[0] != 2 * ao:
-        ctx.witness("active-space-shape", "reduced Hamiltonian does not act on 2·n_active_orb spin orbitals", inp, {"dim": one_r.shape[0]})
         return
     H_red = slater.fock_matrix(c_r, one_r, two_r, 2 * ao)
     core, active = slater.spec_core_and_active(ae, ao, ne, act)
@@ -635,8 +647,13 @@ def p_rotation_and_ao(ctx: Ctx, scale: int):
         U = slater.random_unitary(rng, n, real=real_c)
         specs = []
         for CC in (C, C @ U):
-            full = aoset.to_full_space_mo_int(StubMO(n, 0, n, CC))
-            c_f, one_f, two_f = real_fermionic_tensors(full)
+            try:
+                full = aoset.to_full_space_mo_int(StubMO(n, 0, n, CC))
+                c_f, one_f, two_f = real_fermionic_tensors(full, 2 * n)
+            except Exception as e:  # noqa: BLE001
+                ctx.witness("integral-shape" if isinstance(e, ShapeError) else "ao2mo-raises",
+                            f"full-space spin integrals from AO integrals: {exc_name(e)}", inp, str(e)[:200])
+                break
             H = slater.fock_matrix(c_f, one_f, two_f, 2 * n)
             if slater.hermiticity_defect(H) > TOL:
                 ctx.witness("hermiticity", "full-space Hamiltonian is not Hermitian for a unitary coefficient matrix", inp)
@@ -669,6 +686,10 @@ def p_qubit(ctx: Ctx, scale: int):
         H_f = slater.fock_matrix(const, slater.spin_one(h), slater.spin_two(g) / 2, 2 * n)
         sset = M.SpatialMOeIntSet(const, M.SpatialMO1eIntArray(h.astype(complex)), M.SpatialMO2eIntArray(g.astype(complex)))
         spin_set = M.spatial_mo_eint_set_to_spin_mo_eint_set(sset)
+        if spin_set.mo_1e_int.array.shape != (2 * n, 2 * n) or spin_set.mo_2e_int.array.shape != (2 * n,) * 4:
+            ctx.witness("integral-shape", "spin-orbital integral arrays do not have 2·(number of spatial orbitals) spin orbitals",
+                        {"n_spatial": n}, str(spin_set.mo_1e_int.array.shape))
+            continue
         kind = ["jw", "bk", "scbk"][it % 3]
         na = rng.randint(0, n)
         nb = rng.randint(0, n)
@@ -688,6 +709,9 @@ def p_qubit(ctx: Ctx, scale: int):
             ctx.witness("qubit-hamiltonian-raises", f"get_qubit_mapped_hamiltonian raises {exc_name(e)}", inp, str(e)[:200])
             continue
         scale_h = max(1.0, float(np.max(np.abs(H_f))))
+        if nq != (2 * n if kind in ("jw", "bk") else 2 * n - 2):
+            ctx.witness("qubit-hamiltonian", "qubit Hamiltonian acts on the wrong number of qubits", inp, {"n_qubits": nq})
+            continue
         if kind in ("jw", "bk"):
             sm = fac(2 * n).state_mapper  # the unrestricted state mapper (no fermion-number check)
             bits = np.array([sm([P for P in range(2 * n) if (occ >> P) & 1]).bits for occ in range(1 << (2 * n))])
@@ -799,7 +823,11 @@ def p_pyscf(ctx: Ctx):
                 continue
             ctx.count("physics", "pyscf-vs-memory-ok")
             # the reduced Hamiltonian: HF determinant energy and CASCI ground state energy
-            c_r, one_r, two_r = real_fermionic_tensors(a_mem)
+            try:
+                c_r, one_r, two_r = real_fermionic_tensors(a_mem, 2 * ao)
+            except ShapeError as e:
+                ctx.witness("integral-shape", "active-space spin integrals do not have 2·n_active_orb spin orbitals", inp, str(e))
+                continue
             H_red = slater.fock_matrix(c_r, one_r, two_r, 2 * ao)
             na = nb = ae // 2
             core, active = slater.spec_core_and_active(ae, ao, mol.nelectron, act)
